@@ -1134,7 +1134,8 @@ rrul_fill_mly(echs_instant_t *restrict tgt, size_t nti, rrulsp_t rr)
 	const echs_instant_t protr = echs_instant_rescale(*tgt, srcsca);
 	const echs_instant_t proto = echs_instant_detach_scale(protr);
 	unsigned int y = proto.y;
-	int m = proto.m;
+	/* wide enough to add any INTERVAL */
+	long int m = proto.m;
 	/* unrolled day bi31, we use 2 * 31 because by monthdays can
 	 * also be denoted negatively, thus 1, -1, 2, -2, ..., 31, -31 is
 	 * the biggest possible BYMONTHDAY value */
